@@ -32,6 +32,13 @@ def main():
             attempt("list-append", lambda: bag.li.append(3))
             attempt("dict-setitem", lambda: bag.di.__setitem__("b", 2))
             attempt("config-list-append", lambda: bag.lc.append(m.Leaf(i=2)))
+            # containers that are EMPTY when the configuration is sealed
+            bag2 = m.Bag(li=[], di={}, lc=[])
+            t2 = m.TaskOut(x=2, c=bag2)
+            t2.submit(run_mode=RunMode.DRY_RUN)
+            attempt("empty-list-append", lambda: bag2.li.append(3))
+            attempt("empty-dict-setitem", lambda: bag2.di.__setitem__("b", 2))
+            attempt("empty-config-list-append", lambda: bag2.lc.append(m.Leaf(i=2)))
             out["identifier_kept"] = t.__xpm__.full_identifier.all.hex() == ident
             out["content_identifier_same"] = t.copy().__xpm__.full_identifier.all.hex() == ident
     finally:
